@@ -205,6 +205,73 @@ void incdec(Rng& rng)
     }
 }
 
+// a nest combined with cnl::constant<V>: the constant behaves like the bare built-in integer of the smallest
+// signed type that holds V (int, or int64 beyond) - lines of the `bin` / `cmp` tables with that type
+template<class A, long long V>
+void gconst(Rng& rng)
+{
+    using TA = inner_t<A>;
+    using B = std::conditional_t<(V >= -2147483648LL && V <= 2147483647LL), std::int32_t, std::int64_t>;
+    std::vector<TA> lv;
+    if constexpr (sizeof(TA) == 1)
+        lv = all_vals<TA>();
+    else
+        lv = vals<TA>(rng, 10 * scale_from_env(), sizeof(TA) > 4 ? 13 : 6);
+    for (TA l : lv) {
+        B r = B(V);
+        A a = mk<A>(l);
+        constexpr constant<V> b{};
+        BIN("add", a + b)
+        BIN("sub", a - b)
+        BIN("mul", a * b)
+        if constexpr (V != 0) {
+            BIN("div", a / b)
+            BIN("mod", a % b)
+        }
+        CMP("lt", a < b)
+        CMP("ge", a >= b)
+        CMP("eq", a == b)
+    }
+}
+
+// ++ / -- on scaled nests with non-zero exponents and non-binary radixes
+template<class A>
+void incdece(Rng& rng)
+{
+    using TA = inner_t<A>;
+    std::vector<TA> lv;
+    if constexpr (sizeof(TA) == 1)
+        lv = all_vals<TA>();
+    else
+        lv = vals<TA>(rng, 10 * scale_from_env(), sizeof(TA) > 4 ? 13 : 6);
+    for (TA l : lv) {
+#define IDE(NAME, STMT) \
+    { \
+        printf("C12 ince " NAME " %s ", tn<A>().c_str()); \
+        prv(l); \
+        fputs(" => ", stdout); \
+        int vh_rc = sigsetjmp(vh::jb, 1); \
+        if (vh_rc == 0) { \
+            vh::armed = 1; \
+            A c = mk<A>(l); \
+            A ret = (STMT); \
+            vh::armed = 0; \
+            print_num(c); \
+            putchar('|'); \
+            print_num(ret); \
+        } else { \
+            vh::armed = 0; \
+            vh::print_fail(vh_rc); \
+        } \
+        putchar('\n'); \
+    }
+        IDE("pre+", ++c)
+        IDE("pre-", --c)
+        IDE("post+", c++)
+        IDE("post-", c--)
+    }
+}
+
 // documentation kernels: the CNL expression next to the hand-written shift-and-operate code
 template<class T, class W, int E1, int E2>
 void kernels(Rng& rng)
